@@ -27,6 +27,7 @@ def explore(
     make_extra=None,
     children=None,
     pre_dispatch=None,
+    on_dispatch=None,
     count_states=True,
     sig=None,
 ):
@@ -37,6 +38,8 @@ def explore(
         initial state, before the prefix is replayed.
     pre_dispatch(live) is called before every dispatch (e.g. to populate the
         dispatcher's memo so that it could interfere if it were able to).
+    on_dispatch(live, (j, m)) is called after every accepted dispatch (e.g. to
+        drive a twin object in lock-step).
     """
     ref = Ref(spec)
     base_sig = dict(sig or {})
@@ -60,6 +63,8 @@ def explore(
                 error=repr(exc)[:300],
             )
             raise _Abort()
+        if on_dispatch is not None:
+            on_dispatch(live, c)
 
     def build(hist):
         inst = impl.mk_instance(spec)
